@@ -13,7 +13,7 @@ for path in sorted(glob.glob("/verif/seeded/*/meta.json")):
     rows.append(m)
 table = "| id | what the change does | needs | caught | by (first violation key) |\n|---|---|---|---|---|\n"
 for m in rows:
-    when = "first" if m["caught_when"] == "first" else "after"
+    when = {"first": "first", "not caught": "NO"}.get(m["caught_when"], "after")
     table += f"| {m['id']} | {m['breaks']} | {m['needs_to_manifest']} | {when} | {m['caught_by']} |\n"
 p = "/verif/DESIGN.md"
 s = open(p).read()
@@ -22,4 +22,6 @@ end = s.index("\nWhat the misses taught")
 s = s[:start] + table + s[end:]
 open(p, "w").write(s)
 n_first = sum(1 for m in rows if m["caught_when"] == "first")
-print(len(rows), "seeded changes;", n_first, "caught at first,", len(rows) - n_first, "after strengthening")
+n_not = sum(1 for m in rows if m["caught_when"] == "not caught")
+print(len(rows), "seeded changes;", n_first, "caught at first,", len(rows) - n_first - n_not,
+      "after strengthening,", n_not, "not caught")
